@@ -89,11 +89,21 @@ fn random_run<P: Pad>(seed: u64, run: u64, ops: usize, ns: u32, np: u32, nw: u32
         seed.wrapping_mul(0x9E37_79B9).wrapping_add(run),
         director::RandomCfg { max_objs: maxobjs, fault_p: faultp, max_faults: if faultp > 0.0 { 3 } else { 0 }, cb_act_p: 0.45, weak: cfg!(feature = "weak"), fin_ops: true, auto, clean },
     ));
-    for _ in 0..ops {
+    for step in 0..ops {
         let op = world::with_world::<P, _>(|w| {
             director::with_random(|r| {
+                use rand::Rng;
                 r.cb_budget = 4;
-                director::gen_top_op(r, w)
+                if r.queue.is_empty() && step % 97 == 3 && r.rng.gen_bool(0.5) {
+                    director::gen_scenario(r, w);
+                }
+                if r.queue.is_empty() && world::LAST_PANICKED.with(|c| c.replace(false)) && r.rng.gen_bool(0.6) {
+                    director::gen_probe(r, w);
+                }
+                match r.queue.pop_front() {
+                    Some(op) => Some(op),
+                    None => director::gen_top_op(r, w),
+                }
             })
             .flatten()
         });
